@@ -69,9 +69,11 @@ func runCase(t *testing.T, run *core.Run, name string, idx int, rng *rand.Rand) 
 	tiers := []uint64{100, 100, 200, 200, 300, 1_000_000}
 	opts := node.WorldOpts{
 		Nodes: 1, GenesisVals: nVals, ExtraVals: 5, Users: 5, Gov: true, Delegates: 2,
-		Stake:      func(i int, r *rand.Rand) uint64 { return tiers[r.Intn(len(tiers))] }, // many exact ties
-		Compound:   func(i int) bool { return false },                                     // stakes stay tied unless edited
-		Committees: func(i int, r *rand.Rand) []uint64 { return [][]uint64{{1}, {1, 2}, {1, 2, 3}, {2}, {2, 1}, {3, 1, 2}}[r.Intn(6)] },
+		Stake:    func(i int, r *rand.Rand) uint64 { return tiers[r.Intn(len(tiers))] }, // many exact ties
+		Compound: func(i int) bool { return false },                                     // stakes stay tied unless edited
+		Committees: func(i int, r *rand.Rand) []uint64 {
+			return [][]uint64{{1}, {1, 2}, {1, 2, 3}, {2}, {2, 1}, {3, 1, 2}}[r.Intn(6)]
+		},
 		Params: func(p *fsm.Params, r *rand.Rand) {
 			p.Consensus.ProtocolVersion = fsm.NewProtocolVersion(0, uint64(1+idx%2))
 			p.Validator.MaxCommitteeSize, p.Validator.MaximumDelegatesPerCommittee = capv, delCap
